@@ -182,35 +182,48 @@ def main():
            "pub struct Fresh { pub defs: Vec<crate::fixtures::FixtureDefinition>, pub usages: Vec<crate::fixtures::FixtureUsage>, pub undeclared: Vec<crate::fixtures::UndeclaredFixture>, pub imports: Vec<String>, pub def_names: Vec<String>, pub has_imports_entry: bool }", ""]
     lens = {}
     arms = []
+    entries = []
     names = []
     for name, text in table:
-        if len(text) in lens:
-            sys.exit(f"oracle table: texts {name} and {lens[len(text)]} have the same length {len(text)} (length is the lookup key)")
-        lens[len(text)] = name
+        blen = len(text.encode('utf-8'))
         tmp = os.path.join(build, "astgen_in.py")
         open(tmp, "w").write(text)
         p = subprocess.run([exe, "ast", tmp], stdout=subprocess.PIPE, stderr=subprocess.PIPE, text=True)
-        lit = json.dumps(text)  # a JSON string literal is a valid Rust string literal for this ASCII/escaped content
+        lit = json.dumps(text, ensure_ascii=False)  # a JSON string literal (raw UTF-8 kept) is a valid Rust string literal
         lit = re.sub(r"\\u([0-9a-fA-F]{4})", lambda m: "\\u{" + m.group(1) + "}", lit)
         out.append(f"pub const T_{name}: &str = {lit};")
         names.append(name)
         if p.returncode != 0:
-            arms.append(f"        {len(text)} => Err(perr()),  // {name}: unparsable")
+            entries.append((blen, text.encode('utf-8'), name, "Err(perr())"))
             out.append(f"pub const OK_{name}: bool = false;")
             continue
         tree = P(tokenize(p.stdout.strip())).value()
         out.append(f"pub const OK_{name}: bool = true;")
         out.append(f"pub fn ast_{name.lower()}() -> ast::Mod {{ {conv(tree)} }}")
-        arms.append(f"        {len(text)} => Ok(ast_{name.lower()}()),  // {name}")
+        entries.append((blen, text.encode('utf-8'), name, f"Ok(ast_{name.lower()}())"))
         # what a FRESH index records for this text (real analyze_file, natively, on the current tree)
         q = subprocess.run([exe, "fresh", "/x/" + ("conftest.py" if name.startswith("C_") else "t_u.py"), tmp], stdout=subprocess.PIPE, stderr=subprocess.PIPE, text=True)
         if q.returncode != 0:
             sys.exit(f"astgen fresh failed for {name}: {q.stderr[-400:]}")
         ftree = P(tokenize(q.stdout.strip())).value()
         out.append(f"pub fn fresh_{name.lower()}(p: &str) -> Fresh {{ {conv(ftree)} }}")
+    groups = {}
+    for e in entries:
+        groups.setdefault(e[0], []).append(e)
+    for blen in sorted(groups):
+        g = groups[blen]
+        if len(g) == 1:
+            arms.append(f"        {blen} => {g[0][3]},  // {g[0][2]}")
+            continue
+        # same length: discriminate by one byte position at which all members differ
+        idx = next((i for i in range(blen) if len({m[1][i] for m in g}) == len(g)), None)
+        if idx is None:
+            sys.exit(f"oracle table: texts {[m[2] for m in g]} have the same length {blen} and no single distinguishing byte")
+        inner = " ".join(f"{m[1][idx]} => {m[3]}," for m in g)
+        arms.append(f"        {blen} => match source.as_bytes()[{idx}] {{ {inner} _ => Err(perr()) }},  // {[m[2] for m in g]}")
     out += ["", "fn perr() -> rustpython_parser::ParseError {",
             "    rustpython_parser::ParseError { error: rustpython_parser::ParseErrorType::Eof, offset: TextSize::new(0), source_path: String::new() }", "}",
-            "/// stand-in for rustpython_parser::parse (solver build): table lookup by text length (lengths are unique)",
+            "/// stand-in for rustpython_parser::parse (solver build): table lookup by text length (plus one distinguishing byte where lengths collide)",
             "pub fn oracle_parse(source: &str, _mode: rustpython_parser::Mode, _path: &str) -> Result<ast::Mod, rustpython_parser::ParseError> {",
             "    match source.len() {"] + arms + ["        _ => Err(perr()),", "    }", "}",
             "pub const ALL: &[(&str, &str, bool)] = &["] + [f'    ("{n}", T_{n}, OK_{n}),' for n in names] + ["];", ""]
